@@ -161,11 +161,12 @@ func strs(j interface{}) []string {
 
 // ExecResult is what one public call produced.
 type ExecResult struct {
-	Line  string   // canonical result line, same grammar as the Lean driver
-	Fresh []string // hex ids assigned by Insert to documents that had none
-	Trace []string
-	Fired bool
-	TxN   int
+	Line           string   // canonical result line, same grammar as the Lean driver
+	Fresh          []string // hex ids assigned by Insert to documents that had none
+	Trace          []string
+	Fired          bool
+	TxN            int
+	MutUnderCursor int // store mutations made while a cursor of the same transaction was open
 }
 
 // OpDeadline bounds every public call: an operation that does not return is reported as "timeout"
@@ -201,6 +202,7 @@ func (im *Impl) execGuarded(op J, faultAt int, tracing bool) (res ExecResult) {
 		res.Trace = im.xs.trace
 		res.Fired = im.xs.fired
 		res.TxN = im.xs.txBegun
+		res.MutUnderCursor = im.xs.mutUnderCursor
 	}()
 	res.Line = im.exec(op, &res)
 	return
